@@ -996,6 +996,19 @@ def t_call(E):
                 fu = obj.fields['fut']
                 if name == 'done':
                     return VStub('Future.done', lambda E_, a, k: VBool(z3.Select(fut_world(E)[0], fu) != PENDING))
+                if name == 'cancelled':
+                    return VStub('Future.cancelled', lambda E_, a, k: VBool(z3.Select(fut_world(E)[0], fu) == CANCELLED))
+                if name == 'exception':
+                    def fexc(E_, a, k):
+                        """Future.exception(): the exception, or None for a result (raises for pending / cancelled)"""
+                        stt_, val_ = fut_world(E)
+                        s_ = z3.Select(stt_, fu)
+                        if E.branch(s_ == PENDING):
+                            E.throw('InvalidStateError', origin='exception-of-pending-future')
+                        if E.branch(s_ == CANCELLED):
+                            E.throw('CancelledError', origin='exception-of-cancelled-future')
+                        return VOpt(s_ != EXCEPTION, VVal(z3.Select(val_, fu)))
+                    return VStub('Future.exception', fexc)
                 if name == 'add_done_callback':
                     def adc(E_, a, k):
                         okc = isinstance(a[0], (VFunc, VBound, VPartial, VStub))
@@ -1073,6 +1086,7 @@ def t_call(E):
         loop = E.fresh_val('loop', LoopS)
         ret = E.fresh_real('retention_timeout')
         o.fields.update(_retention_cache=rc, _queue=q, _loop=loop, retention_timeout=ret,
+                        batch_timeout=E.fresh_real('batch_timeout'),
                         _semaphore=Obj('ASemaphore', dict(value=E.fresh_int('permits'))))
         st.update(rc=rc, q=q, retention=ret.t)
         arg = E.fresh_val('arg')
